@@ -7,6 +7,7 @@ import sched as S
 
 THEOREMS_DEPEND_ON = ['Gen/AgreeCodec.v']
 COMP = 120
+COMP_MULTI = 121
 KINDS = {'echo': (0, 1), 'device': (1, 1), 'ioport': (1, 0)}      # -> (kind, same_lock) of Model/Conc.v
 
 
@@ -261,6 +262,23 @@ def execute_multi(kind, progs, policy, max_steps):
                     break
         complete = all(st == 'done' for st in sc.state)
         trace = list(sc.trace)
+        out = []
+        for t in range(len(progs)):
+            oc = sc.outcome[t]
+            out += [1, 0] if oc is None else ([2, core.exn_code(oc[1])] if oc[0] == 'raised' else [0, 0])
+            res = sc.results[t]
+            out.append(len(res))
+            for r in res:
+                if r[0] == 'sent':
+                    out += [0]
+                elif r[0] == 'got':
+                    out += [1, 0] if r[1] is None else [1, 1] + canon.msg_ints(r[1])
+                else:
+                    out += [2, len(r[1])] + [x for m in r[1] for x in canon.msg_ints(m)]
+            out.append(-9)
+        for real in world.real:
+            out += [len(real)] + [x for m in real for x in canon.msg_ints(m)]
+        out.append(world.sleeps[0])
     finally:
         sc.stop()
         world.restore()
@@ -310,7 +328,7 @@ def execute_multi(kind, progs, policy, max_steps):
             objs = {id(m) for _, _, m, _ in sent}
             if any(id(m) in objs for m in received):
                 fail = ('not-a-copy', 'MultiPort scenario: a received message is the very object that was sent')
-    return trace, [], fail
+    return trace, out, fail
 
 
 # ---------------------------------------------------------------- policies
@@ -408,6 +426,20 @@ def enc_case(kind, progs, trace):
     return c + list(trace)
 
 
+def enc_multi_case(progs, trace):
+    c = [2, len(progs)]
+    for p in progs:
+        c.append(len(p))
+        for op in p:
+            if op[0] == 'send':
+                c += [0, op[-1] - 1] + list(op[1])
+            elif op[0] == 'recv':
+                c += [1, op[1]]
+            else:
+                c += [2]
+    return c + list(trace)
+
+
 def dec_case(case):
     kind = {(0, 1): 'echo', (1, 1): 'device', (1, 0): 'ioport'}[(case[1], case[2])]
     n, i, progs = case[3], 4, []
@@ -443,6 +475,17 @@ def job(j):
         else:
             runs = [execute_multi(kind, progs, random_policy(rng, rng.choice([0.1, 0.3, 0.6])), arg[1]) for _ in range(arg[0])]
             exhausted = False
+        fan_in = all((op[0] == 'send' and op[-1] >= 1) or (op[0] != 'send' and op[-1] == 0) for p in progs for op in p)
+        if fan_in:
+            # senders on the sub-ports, receivers on the MultiPort: this is what Model/ConcMulti.v describes - replay every run on it
+            cache, cases = {}, []
+            for trace, out, fail in runs:
+                c = enc_multi_case(progs, trace)
+                if tuple(c) not in cache:
+                    cache[tuple(c)] = (out, fail, 'multi-fan-in:' + mode)
+                    cases.append(c)
+            rec = core.eval_cases(COMP_MULTI, cases, lambda c: cache[tuple(c)])
+            return (kind, mode, exhausted, len(runs)), rec
         rec = {'n': len(runs), 'dis': [], 'fail': [], 'dist': {'multi:' + mode: len(runs)}, 'hashes': {hash(tuple(r[0])) for r in runs}, 'ndis': 0, 'nfail': 0}
         for trace, _, fail in runs:
             if fail is not None:
